@@ -54,7 +54,9 @@ int main(int argc, char** argv) {
         double d = det(w), me = minEig(w);
         Vec3 u(-2, 1, -1); double quad = ~u * (w * u);        // the Coq witness direction: u^T I u = -1
         int ctor_ok = 1; try { Inertia I(w); (void)I; } catch (const std::exception&) { ctor_ok = 0; }
-        std::printf("WITNESS accepted=%d ctor_ok=%d det=%.17g minEig=%.17g quad(-2,1,-1)=%.17g indefinite=%d\n", acc ? 1 : 0, ctor_ok, d, me, quad, (d < 0 && quad < 0) ? 1 : 0);
+        // is Inertia_::errChk compiled in (harness built without NDEBUG)?  a negative moment must then throw
+        int dbg = 0; try { Inertia I(SymMat33(-1, 0, 1, 0, 0, 1)); (void)I; } catch (const std::exception&) { dbg = 1; }
+        std::printf("WITNESS accepted=%d ctor_ok=%d errChk_active=%d det=%.17g minEig=%.17g quad(-2,1,-1)=%.17g indefinite=%d\n", acc ? 1 : 0, ctor_ok, dbg, d, me, quad, (d < 0 && quad < 0) ? 1 : 0);
         return 0;
     }
     if (argc < 4 || std::strcmp(argv[1], "search")) { std::fprintf(stderr, "usage: witness | search seed n\n"); return 2; }
